@@ -27,6 +27,7 @@ use bytes::{BufMut, BytesMut};
 use erltf::decoder::AtomCache;
 use erltf::types::{Atom, ExternalPid, ExternalReference};
 use erltf::{OwnedTerm, decoder};
+use std::collections::HashMap;
 use std::time::Duration;
 use tokio::io::{AsyncReadExt, AsyncWriteExt};
 use tokio::net::TcpStream;
@@ -112,6 +113,8 @@ pub struct Connection {
     transport: FramedTransport,
     atom_cache: AtomCache,
     fragment_assembler: FragmentAssembler,
+    /// fragment count of every sequence whose first fragment has arrived
+    fragment_counts: HashMap<u64, u64>,
 }
 
 impl Connection {
@@ -131,6 +134,7 @@ impl Connection {
             transport,
             atom_cache: AtomCache::new(),
             fragment_assembler: FragmentAssembler::new(),
+            fragment_counts: HashMap::new(),
         }
     }
 
@@ -477,25 +481,31 @@ impl Connection {
                     header.sequence_id, header.fragment_id, header.fragment_id
                 );
 
-                let atom_cache_data = if header.num_atom_cache_refs > 0 {
-                    Some(remaining[..header.num_atom_cache_refs as usize].to_vec())
-                } else {
-                    None
-                };
+                // The first fragment carries what an unfragmented message has after "131, 68":
+                // the atom cache header (starting with its reference count) and the start of
+                // the terms. Rebuild that prefix so the completed message decodes like any other.
+                let mut message_start = Vec::with_capacity(3 + remaining.len());
+                message_start.push(VERSION_TAG);
+                message_start.push(DIST_HEADER);
+                message_start.push(header.num_atom_cache_refs);
+                message_start.extend_from_slice(remaining);
 
-                let payload_start = if header.num_atom_cache_refs > 0 {
-                    header.num_atom_cache_refs as usize
-                } else {
-                    0
-                };
-
+                // The first fragment is numbered with the fragment count and the rest count down
+                // to 1, while the assembler concatenates by ascending id. Keep the start of the
+                // message in front and file continuation `k` of `n` under `n - k`, so ascending
+                // order is sending order.
+                if header.fragment_id > 1 {
+                    self.fragment_counts
+                        .insert(header.sequence_id, header.fragment_id);
+                }
                 if let Some(complete_data) = self.fragment_assembler.start_fragment(
                     header.sequence_id,
                     header.fragment_id,
-                    atom_cache_data,
-                    remaining[payload_start..].to_vec(),
+                    Some(message_start),
+                    Vec::new(),
                 ) {
                     trace!("Fragment sequence complete, processing");
+                    self.fragment_counts.remove(&header.sequence_id);
                     return Self::decode_complete_fragment(&complete_data, &mut self.atom_cache);
                 } else {
                     continue;
@@ -508,12 +518,26 @@ impl Connection {
                     sequence_id, fragment_id
                 );
 
+                let Some(&fragment_count) = self.fragment_counts.get(&sequence_id) else {
+                    return Err(Error::Protocol(format!(
+                        "fragment {} of sequence {} arrived without its first fragment",
+                        fragment_id, sequence_id
+                    )));
+                };
+                if fragment_id == 0 || fragment_id >= fragment_count {
+                    return Err(Error::Protocol(format!(
+                        "fragment id {} out of range for a sequence of {} fragments",
+                        fragment_id, fragment_count
+                    )));
+                }
+
                 if let Some(complete_data) = self.fragment_assembler.add_fragment(
                     sequence_id,
-                    fragment_id,
+                    fragment_count - fragment_id,
                     remaining.to_vec(),
                 ) {
                     trace!("Fragment sequence complete, processing");
+                    self.fragment_counts.remove(&sequence_id);
                     return Self::decode_complete_fragment(&complete_data, &mut self.atom_cache);
                 } else {
                     continue;
